@@ -1,6 +1,7 @@
 import Utv.GenEq.Support
 import Utv.Gen.Field
 import Utv.Gen.Options
+import Utv.Gen.Parse
 import Utv.Model.C05
 /-!
 C05 — T1 obligations: the field predicates of the hand model (`Model/C05.lean`: `isNoInput isNoOutput alwaysNoInput
@@ -43,6 +44,10 @@ def encOptVal : Option V → OVal V
   | none => .unprovided
   | some d => .val d
 
+def encOptNat : Option Nat → OVal V
+  | none => .none
+  | some n => .int n
+
 /-- the `ParserField` a `PField` stands for -/
 def encField (f : PField V) : OVal V :=
   .obj "ParserField" [
@@ -55,7 +60,11 @@ def encField (f : PField V) : OVal V :=
     ("mode", match f.mode with | none => .none | some ms => encLetters ms),
     ("final", .bool false),
     ("on_error", match f.onError with | none => .none | some e => encOnErr e),
-    ("setup_case_insensitive", .bool f.ci)]
+    ("setup_case_insensitive", .bool f.ci),
+    -- what `parse_value` reads besides: not deprecated, no discriminator; the declared type (by its id) or None
+    ("field", .obj "Field" [("deprecated", .bool false)]), ("deprecated_to", .none),
+    ("type", match f.ty with | none => .none | some t => .cls t), ("discriminator_map", .none),
+    ("name", .int f.name), ("EXCLUDED", .obj "Excluded" [])]
 
 /-- the `Options` an `Opts` stands for (attributes the predicates read) -/
 def encOpts (o : Opts V) : OVal V :=
@@ -66,7 +75,10 @@ def encOpts (o : Opts V) : OVal V :=
     ("defer_default", .bool o.deferDefault),
     ("force_default", encOptVal o.forceDefault),
     ("invalid_values", encOnErr o.invalidValues),
-    ("case_insensitive", .bool o.caseInsensitive)]
+    ("case_insensitive", .bool o.caseInsensitive),
+    ("EXCLUDE", .str "exclude"), ("PRESERVE", .str "preserve"),
+    ("addition", match o.addition with | .ignore => .none | .allow => .bool true | .forbid => .bool false),
+    ("collect_errors", .bool o.collectErrors), ("max_errors", encOptNat o.maxErrors)]
 
 def flagLetters : Flag → List Nat
   | .modes ms => ms
@@ -224,10 +236,6 @@ theorem C05_gen_is_case_insensitive_setup (W : Obj.World V) (W5 : C05.World V) (
 
 /-! ### `Options.__init__` normalisation (`Opts.normalise`) -/
 
-def encOptNat : Option Nat → OVal V
-  | none => .none
-  | some n => .int n
-
 /-- the keyword arguments `Options(...)` is called with for an `Opts` of the model -/
 def encKw (o : Opts V) : List (String × OVal V) := [
   ("mode", match o.mode with | none => .none | some m => .str (String.singleton (ltr m))),
@@ -304,5 +312,144 @@ theorem C05_gen_options_init (W : Obj.World V) (self : OVal V) (o : Opts V)
         all_goals (try grind)
     simp only [key, field, Opts.normalise]
     obj_simp [getattr, lookupAttr]
+
+/-! ### `parse_value` / `parse_addition` under a *collecting* context: what is stored and which errors are handled -/
+
+/-- a context with the errors handled so far, under the options `o` -/
+def encCtx (o : Opts V) (errors : List (OVal V)) : OVal V :=
+  .obj "RuntimeContext" [("errors", .seq .list errors), ("tmp_errors", .seq .list []), ("options", encOpts o)]
+
+/-- a *collecting* run: `collect_errors=True`, no `max_errors` — `handle_error` records and goes on -/
+def Collecting (o : Opts V) : Prop := o.collectErrors = true ∧ o.maxErrors = none
+
+/-- which model error an error object in the context's list stands for (for the key / field name `k`) -/
+def errOf (k : Key) : OVal V → Option Err
+  | .obj "ExceedError" _ => some (.exceed k)
+  | .obj "ParseError" _ => some (.parse k)
+  | _ => none
+
+def errsOf (k : Key) (ctx : OVal V) : List Err :=
+  match getattr ctx "errors" with
+  | .ok (.seq _ es) => es.filterMap (errOf k)
+  | _ => []
+
+def optOf : OVal V → Option V
+  | .val v => some v
+  | _ => none
+
+/-- `parse_addition`: the value kept (if any) and the errors handled, as the model's pair -/
+def decodeAdd (k : Key) : OVal V × Obj.Outcome V → Option V × List Err
+  | (ctx, .ret v) => (optOf v, errsOf k ctx)
+  | (ctx, .raise _) => (none, errsOf k ctx)
+
+structure AddWorldOk (W : Obj.World V) (W5 : C05.World V) (k : Key) (ctx : OVal V) : Prop where
+  enter : W.ext "enter" [ctx, .int k, .none] = .ok (.obj "RuntimeContext" [("transformer", .fn 0)])
+  conv : ∀ x, W.call (.fn 0) [.val x, .cls 0] =
+    match W5.addConv x with
+    | some y => .ok (.val y)
+    | none => .error .typeError
+
+theorem C05_gen_parse_addition (W : Obj.World V) (W5 : C05.World V) (P : Parser V) (o : Opts V) (k : Key) (v : V)
+    (hcol : Collecting o) (hw : AddWorldOk W W5 k (encCtx o [])) :
+    (Parse.parse_addition W
+        (.obj "ClassParser" [("exclude_vars", .seq .list []), ("addition_type", if P.additionTyped then .cls 0 else .none)])
+        (.int k) (.val v) (encCtx o [])).map (decodeAdd k)
+      = .ok (parseAddition W5 P o k v) := by
+  gen_obligation "C05_gen_parse_addition: the regenerated code (Utv.Gen) is no longer equal to the hand model here" by
+    have he := hw.enter
+    have hc := hw.conv v
+    obtain ⟨omode, ad, ir, nd, dd, fd, iac, ce, me, mxp, mnp, iv, dfs, oci⟩ := o
+    obtain ⟨h1, h2⟩ := hcol
+    simp only at h1 h2
+    subst h1 h2
+    cases ad <;> cases hat : P.additionTyped <;> cases hconv : W5.addConv v <;> rw [hconv] at hc <;> cases iv <;>
+      simp only [encCtx, encOpts, encOnErr, encOptNat] at he <;>
+      obj_simp [Parse.parse_addition, Options.handle_error, encCtx, encOpts, encOptNat, encOnErr, getattr, setattr, lookupAttr, setAttrL, append,
+        contains, memS, OVal.isFalse, he, hc, eq, eqS, decodeAdd, errsOf, errOf, optOf, Except.map, parseAddition, hat, hconv,
+        tryCatch, tryCatchThe, MonadExceptOf.tryCatch, Except.tryCatch, Exc.isA, len, ge, le, OVal.isNone] <;> rfl
+
+/-- `parse_value(value, context, excluded_as_absent=True)`: value to store (if any), errors handled, and whether the
+value was dropped by the 'exclude' policy (`EXCLUDED`) -/
+def decodePV (k : Key) : OVal V × Obj.Outcome V → Option V × List Err × Bool
+  | (ctx, .ret (.obj "Excluded" _)) => (none, errsOf k ctx, true)
+  | (ctx, .ret v) => (optOf v, errsOf k ctx, false)
+  | (ctx, .raise _) => (none, errsOf k ctx, false)
+
+structure PVWorldOk (W : Obj.World V) (W5 : C05.World V) (f : PField V) (ctx : OVal V) : Prop where
+  enter : W.ext "enter" [ctx, .int f.name, .none] = .ok (.obj "RuntimeContext" [("transformer", .fn 0)])
+  conv : ∀ t x, W.call (.fn 0) [.val x, .cls t] =
+    match W5.fp t x with
+    | some y => .ok (.val y)
+    | none => .error .typeError
+  copy : ∀ v, W.ext "copy_value" [v] = .ok v
+
+theorem getattr_ctx_options (o : Opts V) (es : List (OVal V)) : getattr (encCtx o es) "options" = .ok (encOpts o) := by
+  simp [encCtx, getattr, lookupAttr, pure, Except.pure]
+
+section attrs
+variable (f : PField V)
+theorem ga_field : getattr (encField f) "field" = .ok (.obj "Field" [("deprecated", .bool false)]) := by
+  simp [encField, getattr, lookupAttr, pure, Except.pure]
+theorem ga_deprecated : getattr (OVal.obj "Field" [("deprecated", (.bool false : OVal V))]) "deprecated" = .ok (.bool false) := rfl
+theorem ga_type : getattr (encField f) "type" = .ok (match f.ty with | none => .none | some t => .cls t) := by
+  simp [encField, getattr, lookupAttr, pure, Except.pure]
+theorem ga_dmap : getattr (encField f) "discriminator_map" = .ok .none := by
+  simp [encField, getattr, lookupAttr, pure, Except.pure]
+theorem ga_name : getattr (encField f) "name" = .ok (.int f.name) := by
+  simp [encField, getattr, lookupAttr, pure, Except.pure]
+theorem ga_excluded : getattr (encField f) "EXCLUDED" = .ok (.obj "Excluded" []) := by
+  simp [encField, getattr, lookupAttr, pure, Except.pure]
+theorem ga_transformer : getattr (OVal.obj "RuntimeContext" [("transformer", (.fn 0 : OVal V))]) "transformer" = .ok (.fn 0) := rfl
+theorem ga_exclude (o : Opts V) : getattr (encOpts o) "EXCLUDE" = .ok (.str "exclude") := by
+  simp [encOpts, getattr, lookupAttr, pure, Except.pure]
+theorem ga_preserve (o : Opts V) : getattr (encOpts o) "PRESERVE" = .ok (.str "preserve") := by
+  simp [encOpts, getattr, lookupAttr, pure, Except.pure]
+end attrs
+
+/-- `handle_error` of a collecting context records the error and returns -/
+theorem handle_error_collecting (W : Obj.World V) (o : Opts V) (hcol : Collecting o) (es : List (OVal V)) (e : OVal V) :
+    Options.handle_error W (encCtx o es) e (.bool false) = .ok (encCtx o (es ++ [e]), .ret .none) := by
+  obtain ⟨omode, ad, ir, nd, dd, fd, iac, ce, me, mxp, mnp, iv, dfs, oci⟩ := o
+  obtain ⟨h1, h2⟩ := hcol
+  simp only at h1 h2
+  subst h1 h2
+  obj_simp [Options.handle_error, encCtx, encOpts, encOptNat, getattr, setattr, lookupAttr, setAttrL, append, OVal.isNone]
+
+theorem C05_gen_parse_value (W : Obj.World V) (W5 : C05.World V) (o : Opts V) (f : PField V) (v : V)
+    (hl : LettersOk o f) (hcol : Collecting o) (hw : PVWorldOk W W5 f (encCtx o [])) :
+    (Parse.parse_value W (encField f) (.val v) (encCtx o []) (.bool true)).map (decodePV f.name)
+      = .ok (parseValue Legacy.none W5 o f v) := by
+  gen_obligation "C05_gen_parse_value: the regenerated code (Utv.Gen) is no longer equal to the hand model here" by
+    have he := hw.enter
+    have h1 := C05_gen_get_on_error W o f
+    have h2 := C05_gen_is_required W o f hl
+    have h3 := C05_gen_get_default W o f false
+    unfold Parse.parse_value parseValue convert
+    cases hty : f.ty with
+    | none =>
+      simp only [getattr_ctx_options, bind, Except.bind, pure, Except.pure, ga_field, ga_deprecated, ga_type, ga_dmap,
+        ga_name, ga_excluded, truthy_bool, truthy_none, hty, Bool.false_eq_true, if_false, Bool.not_false, if_true]
+      simp [Except.map, decodePV, optOf, errsOf, encCtx, getattr, lookupAttr, pure, Except.pure]
+    | some t =>
+      have hc := hw.conv t v
+      cases hfp : W5.fp t v with
+      | some y =>
+        rw [hfp] at hc
+        simp only [getattr_ctx_options, bind, Except.bind, pure, Except.pure, ga_field, ga_deprecated, ga_type, ga_dmap,
+          ga_name, ga_excluded, ga_transformer, truthy_bool, truthy_none, truthy_cls, hty, he, hc, Bool.false_eq_true, if_false,
+          Bool.not_false, Bool.not_true, if_true, tryCatch, tryCatchThe, MonadExceptOf.tryCatch, Except.tryCatch]
+        simp only [hfp]
+        rfl
+      | none =>
+        rw [hfp] at hc
+        have hh := handle_error_collecting W o hcol []
+        cases hoe : getOnError o f <;> cases hreq : isRequired Legacy.none o f <;> cases hdf : getDefault o f false <;>
+          simp only [hoe, hreq, hdf] at h1 h2 h3 <;>
+          simp only [getattr_ctx_options, bind, Except.bind, pure, Except.pure, ga_field, ga_deprecated, ga_type, ga_dmap,
+            ga_name, ga_excluded, ga_transformer, ga_exclude, ga_preserve, truthy_bool, truthy_none, truthy_cls, hty, he, hc,
+            h1, h2, h3, hh, hw.copy, Bool.false_eq_true, if_false, Bool.not_false, Bool.not_true, if_true, tryCatch, tryCatchThe,
+            MonadExceptOf.tryCatch, Except.tryCatch, Exc.isA, List.contains_cons, List.contains_nil, encOnErr, eq, eqS,
+            List.nil_append] <;>
+          simp only [hfp, hoe, hreq, hdf] <;> rfl
 
 end Utv.GenEq.C05
